@@ -46,6 +46,9 @@ CLASS = {
     "decorated": "import functools\n\n\ndef deco(fn):\n    @functools.wraps(fn)\n    def wrapper(*a, **k):\n        return fn(*a, **k)\n\n    return wrapper\n\n\n@deco\ndef f(a: int) -> int:\n    return a\n\n\nclass K:\n    @functools.cached_property\n    def cp(self) -> int:\n        return 1\n\n    @deco\n    def m(self) -> int:\n        return 2\n",
 }
 CLASS.update({
+    "generic-paramspec": "from typing import Callable, Generic, ParamSpec, TypeVar\n\nP = ParamSpec(\"P\")\nT = TypeVar(\"T\")\n\n\nclass Handler(Generic[P]):\n    def call(self, *args: P.args, **kwargs: P.kwargs) -> int:\n        ...\n\n\n"
+                         "class Both(Generic[T, P]):\n    def __init__(self, f: Callable[P, T]):\n        self.f = f\n\n    def m(self, x: T) -> T:\n        ...\n\n\ndef deco(f: Callable[P, T]) -> Callable[P, T]:\n    ...\n",
+    "generic-typevartuple": "from typing import Generic, TypeVarTuple, Unpack\n\nTs = TypeVarTuple(\"Ts\")\n\n\nclass Shape(Generic[Unpack[Ts]]):\n    def dims(self) -> int:\n        ...\n\n\nclass Star(Generic[*Ts]):\n    def dims(self, *a: *Ts) -> int:\n        ...\n",
     "recursive-alias": "from typing import Union\n\nJson = Union[dict[str, \"Json\"], list[\"Json\"], str, int, float, bool, None]\n\n\ndef dump(data: Json) -> str:\n    ...\n\n\ndef load(text: str) -> Json:\n    ...\n",
     "recursive-namedtuple": "from typing import NamedTuple\n\n\nclass Node(NamedTuple):\n    value: int\n    children: list[\"Node\"]\n\n\nclass Pair(NamedTuple):\n    x: int\n    y: str\n\n\ndef depth(node: Node) -> int:\n    ...\n\n\ndef mk(p: Pair) -> Pair:\n    ...\n",
 })
